@@ -116,6 +116,51 @@ def c05_oracle(chk, text, resp):
     return a
 
 
+def canon_analysis_resp(resp):
+    """Canonical form of the harness `analyze` answer: symbol warnings (HashMap order) sorted."""
+    parts = resp.split("\t")
+    if parts[0] != "ok":
+        return "panic"
+    parts += [""] * (4 - len(parts))
+    msgs = parts[2].split(";") if parts[2] else []
+    plain = [m for m in msgs if not (m.startswith("W@") and m.split("@")[2] != "none")]
+    syms = sorted((m for m in msgs if m.startswith("W@") and m.split("@")[2] != "none"), key=lambda x: x.encode())
+    return "\t".join([parts[0], parts[1], ";".join(plain + syms), parts[3]])
+
+
+ANALYZER_HEADER = core.HEADER.replace("Run.Harness.", "Run.Harness Model.Analyzer Run.HarnessFiles.")
+
+
+def analyzer_correspondence(chk, name, cases, shard=60):
+    shards = []
+    for i in range(0, len(cases), shard):
+        chunk = cases[i:i + shard]
+        body = "Definition cases : list (string * string) := [\n" + ";\n".join(
+            f"({core.coq_str(esc(t.encode('utf-8')))}, {core.coq_str(canon_analysis_resp(r))})" for t, r in chunk) + "].\n"
+        body += "Eval vm_compute in an_failing cases.\n"
+        shards.append(body)
+    results, paths = core.run_coq_shards(name, shards, header=ANALYZER_HEADER)
+    bad, errors = [], []
+    for k, ((rc, out), path) in enumerate(zip(results, paths)):
+        if rc != 0:
+            errors.append(f"{path}: coqc exit {rc}: {out[-800:]}")
+            continue
+        lists = core.parse_N_list(out)
+        if len(lists) != 1:
+            errors.append(f"{path}: unparsable output {out[-400:]}")
+            continue
+        bad += [cases[k * shard + idx] for idx in lists[0]]
+    chk.disagreements_checked += len(cases)
+    chk.programs += len(cases)
+    ok = not bad and not errors
+    chk.oblige(f"correspondence[{name}]: model analyzer = SourceFileAnalyzer on {len(cases)} files (messages, locations, source mapping, token classes and ranges)",
+               ok, (f"{len(bad)} disagreements, e.g. {bad[0][0][:160]!r}" if bad else "") + " ".join(errors)[:500])
+    if not ok:
+        rep = {"file": bad[0][0], "implementation": bad[0][1][:800], "harness_commands": ["analyze\t" + esc(bad[0][0].encode("utf-8"))]} if bad else None
+        chk.broke(f"correspondence {name} (Model/Analyzer.v analyze vs abasic-core SourceFileAnalyzer)", (errors or [f"{len(bad)} files disagree"])[0][:1500], rep)
+    return bad
+
+
 def run_c05(chk):
     h = core.Harness(chk.harness_path)
     n = 300 if chk.tier == "quick" else 10000
@@ -137,4 +182,207 @@ def run_c05(chk):
         cases.append((text, resp))
         chk.case(text, nontrivial=len(text.split("\n")) > 1, sample={"file": text[:200]})
     h.close()
+    analyzer_correspondence(chk, "C05-analyzer", [c for c in cases if len(c[0]) < 3000])
     return cases
+
+
+# ---------------------------------------------------------------------------
+# C06
+
+BAD = ("err:Syntax(", "err:TypeMismatch", "err:UndefinedStatement")
+NOT_STRAIGHT = re.compile(r"\b(IF|GOTO|GOSUB|RETURN|NEXT|END|STOP|INPUT|DEF|THEN|ELSE)\b", re.I)
+
+
+def c06_calls_function(line, all_lines):
+    names = set(re.findall(r"\bDEF\s*([A-Z][A-Z0-9]*\$?)\s*\(", "\n".join(all_lines), re.I))
+    return any(re.search(r"\b" + re.escape(n) + r"\s*\(", line, re.I) for n in names)
+
+
+STRAIGHT_FAULTS = ["A = \"hi\"", "A$ = 5", "X = S$ = T$", "S$ = S$ = T$", "X = NOT S$", "X$ = +\"a\"", "X = +\"a\"", "X = -\"a\"",
+                   "PRINT 1 +", "PRINT (1", "X = 1 AND \"a\"", "X$ = \"a\" OR 1", "A$ = \"x\" < \"y\"", "A = \"x\" < \"y\"",
+                   "PRINT \"a\" + 1", "PRINT \"a\" = 1", "X = ABS(\"a\")", "X$ = ABS(1)", "N(\"a\") = 1", "N(1) = \"a\"",
+                   "T$(1) = 2", "READ A, B$ : DATA 1", "DIM Q(\"x\")", "FOR A$ = 1 TO 2", "FOR I = \"a\" TO 2", "PRINT 1 = 1 = 1",
+                   "X = (1 < 2) + (\"a\" < \"b\")", "X$ = (1 < 2)", "LET = 1", "PRINT ; , ;", "X = 2 ^ \"a\"", "X = NOT NOT 1",
+                   "PRINT - - 1", "A = 1 : B$ = A", "RESTORE : READ", "PRINT INT(\"x\")", "X = RND(\"a\")", "DIM", "LET 5",
+                   "A(1,2) = 3 : PRINT A(1)", "PRINT A$ < 1", "X = 1 < \"a\""]
+
+
+def run_c06(chk):
+    h = core.Harness(chk.harness_path)
+    n = 160 if chk.tier == "quick" else 5000
+    an_cases = []
+    sessions = []
+    for i in range(n):
+        r = chk.rng.fork(("c06", i))
+        flavour = r.weighted([("typed", 45), ("faulty", 35), ("straight", 20)])
+        if flavour == "straight":
+            lines = [f"{10 * (k + 1)} " + (r.choice(STRAIGHT_FAULTS) if r.chance(0.6) else gen.ProgGen(r, fault=0.3, use_input=False, use_fn=False).stmt_line())
+                     for k in range(r.below(4) + 1)]
+        else:
+            pg = gen.ProgGen(r, fault=0.0 if flavour == "typed" else 0.10)
+            lines = pg.generate(size=4 + r.below(7))
+        text = "\n".join(lines)
+        if not h.alive():
+            h.restart()
+        resp = h.cmd("analyze", esc(text.encode("utf-8")))
+        a = parse_analysis(resp)
+        an_cases.append((text, resp))
+        if a is None:
+            chk.fail("analyzer-panic", f"{text[:100]!r} -> {resp[:120]}", {"file": text, "harness_commands": ["analyze\t" + esc(text.encode())]})
+            continue
+        errors = [m for m in a["messages"] if m["kind"] == "E"]
+        chk.count(f"{flavour}:{'rejected' if errors else 'accepted'}")
+        defs = re.findall(r"\bDEF\s*([A-Z][A-Z0-9]*\$?)\s*\(", text, re.I)
+        if not errors and len(defs) == len(set(d.upper() for d in defs)):
+            # soundness: no forced execution may fail with a syntax error, type mismatch or undefined jump
+            for k in range(3 if chk.tier == "quick" else 6):
+                rr = r.fork(("run", k))
+                s = sess.Session(h)
+                s.rand(rr.below(2 ** 33))
+                enter_program(s, lines)
+                s.line("RUN")
+                s.run_until_idle(replies=[rr.choice(["1", "0", "5", "abc", "-1", "2.5", "x y", "7"]) for _ in range(14)], max_turns=260)
+                last = next((row for _, row in reversed(s.ops) if row.kind == "row" and row.outcome.startswith("err:")), None)
+                for _, row in s.ops:
+                    if row.kind in ("panic", "abort"):
+                        chk.fail("crash:" + row.f.get("msg", "")[:50], row.raw[:160], session_replay(s))
+                if last is not None and last.outcome.startswith(BAD):
+                    line_no = last.outcome.rpartition("@")[2].split(".")[0]
+                    src = next((l for l in lines if l.split(" ", 1)[0] == line_no), "?")
+                    cls = "accepted-but-fails"
+                    # known class: a call site on a lower line number than the DEF it needs (executed earlier via GOSUB/GOTO)
+                    chk.fail(cls, f"analysis reports no error but the run fails with {last.outcome} at {src!r}",
+                             {"file": text, "harness_commands": s.commands()})
+                    break
+                if k == 0:
+                    sessions.append(s.ops)
+        # no false rejection of straight-line lines
+        for m in errors:
+            fl = m["file_line"]
+            if fl >= len(lines):
+                continue
+            src = lines[fl]
+            stmt = src.split(" ", 1)[1] if " " in src else ""
+            if NOT_STRAIGHT.search(re.sub(r'"[^"]*"', '""', stmt)) or c06_calls_function(stmt, lines):
+                chk.count("rejected-line:not-straight")
+                continue
+            chk.count("rejected-line:straight")
+            s = sess.Session(h)
+            s.line(src)
+            s.line("RUN")
+            s.run_until_idle(max_turns=60)
+            failed = any(row.kind == "row" and row.outcome.startswith("err:") for _, row in s.ops)
+            if not failed:
+                chk.fail("valid-line-rejected", f"analysis rejects {src!r} ({m['fields'][2]}) but executing it from a fresh state succeeds",
+                         {"file": text, "line": src, "harness_commands": s.commands()})
+            sessions.append(s.ops)
+        chk.case(text, nontrivial=True, sample={"file": lines[:5], "errors": [m["fields"][2] for m in errors][:3]})
+    h.close()
+    analyzer_correspondence(chk, "C06-analyzer", an_cases)
+    from .props import session_correspondence
+    session_correspondence(chk, "C06-runs", sessions, ["outcome", "state", "outputs"])
+
+
+# ---------------------------------------------------------------------------
+# C15
+
+def run_cli(binary, args, stdin_text, cwd):
+    env = dict(core.ENV, HOME=cwd, NO_COLOR="1", CLICOLOR="0", TERM="dumb")
+    try:
+        p = subprocess.run([binary] + args, input=stdin_text.encode("utf-8"), cwd=cwd, env=env, stdout=subprocess.PIPE,
+                           stderr=subprocess.PIPE, timeout=20)
+        return p.returncode, p.stdout.decode("utf-8", "replace"), p.stderr.decode("utf-8", "replace")
+    except subprocess.TimeoutExpired:
+        return "timeout", "", ""
+
+
+ANSI = re.compile(r"\x1b\[[0-9;]*m")
+
+
+def cli_canon(out, err, interactive):
+    out = ANSI.sub("", out)
+    err = ANSI.sub("", err)
+    if interactive:
+        out = re.sub(r"^Welcome to Atul's BASIC Interpreter v[^\n]*\nPress CTRL-C to exit\.\n", "", out)
+    # analyzer messages are printed only in file mode and are not program output
+    err = "\n".join(l for l in err.split("\n") if not l.startswith("Warning on line "))
+    return out, err
+
+
+def run_c15(chk):
+    from .props import session_correspondence
+    h = core.Harness(chk.harness_path)
+    abasic, _ = core.build_repo_bins()
+    n = 40 if chk.tier == "quick" else 600
+    sessions = []
+    work = os.path.join(core.WORK, "C15-cli")
+    os.makedirs(work, exist_ok=True)
+    for i in range(n):
+        r = chk.rng.fork(("c15", i))
+        pg = gen.ProgGen(r, fault=0.03, use_input=r.chance(0.5))
+        lines = pg.generate(size=4 + r.below(6))
+        if r.chance(0.3):
+            lines.append("5 PRINT UNSET;Q(3)")       # runtime warnings
+        if r.chance(0.2):
+            lines = list(reversed(lines))            # order of entry is irrelevant
+        nl = r.choice(["\n", "\n", "\r\n"]) if False else "\n"
+        text = nl.join(lines) + (nl if r.chance(0.5) else "")
+        replies = [r.choice(["1", "2", "abc", "5", "0"]) for _ in range(12)]
+        # (1) in-process: loading through the analyzer vs entering line by line
+        a = sess.Session(h)
+        resp = h.cmd("load", esc(text.encode("utf-8")))
+        a.ops.append((("load", text.encode("utf-8")), sess.Row("ok")))
+        if resp != "ok":
+            chk.fail("load-crash", f"loading {text[:100]!r}: {resp[:120]}", {"file": text, "harness_commands": ["load\t" + esc(text.encode())]})
+            continue
+        a.state = "Idle"
+        b = sess.Session(h)
+        b_cmds = []
+        tr = []
+        for sname, s in (("loaded", a), ("typed", b)):
+            if sname == "typed":
+                enter_program(s, lines)
+            st = len(s.ops)
+            s.line("LIST")
+            s.line("RUN")
+            s.run_until_idle(replies=list(replies), max_turns=200)
+            tr.append([(row.outcome, row.state, row.f.get("outputs"), row.f.get("snap")) for _, row in s.ops[st:]])
+        if tr[0] != tr[1]:
+            j = next((j for j in range(min(len(tr[0]), len(tr[1]))) if tr[0][j] != tr[1][j]), min(len(tr[0]), len(tr[1])))
+            chk.fail("load-differs-from-typing", f"call {j} after loading vs typing: {(tr[0][j] if j < len(tr[0]) else None)!r:.300} vs {(tr[1][j] if j < len(tr[1]) else None)!r:.300}",
+                     {"file": text, "harness_commands": ["load\t" + esc(text.encode())] + a.commands()[1:]})
+        sessions.append(b.ops)
+        # (2) the abasic binary: FILE vs piped interactive session, all option combinations
+        path = os.path.join(work, f"p{i}.bas")
+        with open(path, "w") as f:
+            f.write(text)
+        stdin_file = "\n".join(replies) + "\n"
+        stdin_piped = "\n".join(lines + ["RUN"] + replies) + "\n"
+        for w in (False, True):
+            for t in (False, True):
+                for skip in (False, True):
+                    if chk.tier == "quick" and skip and not (w and t):
+                        continue
+                    opts = (["-w"] if w else []) + (["-t"] if t else []) + (["-s"] if skip else [])
+                    rc1, o1, e1 = run_cli(abasic, opts + [path], stdin_file, work)
+                    rc2, o2, e2 = run_cli(abasic, opts, stdin_piped, work)
+                    chk.count("cli-runs", 2)
+                    if rc1 == "timeout" or rc2 == "timeout":
+                        chk.fail("cli-timeout", f"abasic {opts} timed out", {"file": text, "options": opts})
+                        continue
+                    c1, c2 = cli_canon(o1, e1, False), cli_canon(o2, e2, True)
+                    analysis_refused = "Please fix the above errors" in e1
+                    if analysis_refused:
+                        chk.count("cli:refused-by-check")
+                        continue
+                    if c1 != c2:
+                        chk.fail("cli-modes-differ", f"abasic {' '.join(opts)} FILE vs piped session: stdout {c1[0][:200]!r} vs {c2[0][:200]!r}; stderr {c1[1][:200]!r} vs {c2[1][:200]!r}",
+                                 {"file": text, "options": opts, "file_mode": {"stdout": o1, "stderr": e1, "exit": rc1},
+                                  "piped_mode": {"stdout": o2, "stderr": e2, "exit": rc2}})
+        try:
+            os.remove(path)
+        except OSError:
+            pass
+        chk.case(text, nontrivial=True, sample={"file": lines[:5]})
+    h.close()
+    session_correspondence(chk, "C15-typed", sessions, ["outcome", "state", "outputs", "snap"])
